@@ -264,6 +264,11 @@ pub mod crypto {
         //@ ensures from: r == kp_of(*key)
         //@ ensures wf: r.wf()
         //@end
+        //@extract biscuit-auth/src/crypto/mod.rs :: impl KeyPair :: fn from_bytes
+        //@ ensures alg: r is Ok ==> (algorithm is Ed25519 <==> r->Ok_0 is Ed25519)
+        //@ ensures len: r is Ok ==> bytes@.len() == 32
+        //@ ensures bytes: r is Ok ==> sk_bytes_of(kp_private(r->Ok_0)) == bytes@
+        //@end
         //@extract biscuit-auth/src/crypto/mod.rs :: impl KeyPair :: fn sign
         //@ ensures sign: r is Ok ==> r->Ok_0.0@ == sign_spec(*self, data@)
         //@end
@@ -297,6 +302,11 @@ pub mod crypto {
     impl PublicKey {
         //@extract biscuit-auth/src/crypto/mod.rs :: impl PublicKey :: fn to_bytes
         //@ ensures bytes: r@ == pk_bytes(*self)
+        //@end
+        //@extract biscuit-auth/src/crypto/mod.rs :: impl PublicKey :: fn from_bytes
+        //@ ensures alg: r is Ok ==> (algorithm is Ed25519 <==> r->Ok_0 is Ed25519)
+        //@ ensures decodes: r is Ok ==> pk_decodes(r->Ok_0, bytes@)
+        //@ ensures ed_len: r is Ok && algorithm is Ed25519 ==> bytes@.len() == 32
         //@end
         //@extract biscuit-auth/src/crypto/mod.rs :: impl PublicKey :: fn from_proto
         //@ ensures rel: r is Ok ==> pk_proto_rel(*key, r->Ok_0)
@@ -375,5 +385,8 @@ pub mod crypto {
 //@canary ext-prevsig :: crypto::verify_external_signature :: generate_external_signature_payload_v1(payload, previous_signature.to_bytes(), version) ==>> generate_external_signature_payload_v1(payload, &[], version)
 //@canary seal-err :: crypto::TokenNext::keypair :: Err(error::Token::AlreadySealed) ==>> Err(error::Token::InternalError)
 //@canary sign-v1-as-v0 :: crypto::sign_block :: 1 => generate_block_signature_payload_v1( ==>> 7 => generate_block_signature_payload_v1(
+//@canary p256-len-guard :: crypto::p256::PrivateKey::from_bytes :: if bytes.len() != 32 { ==>> if false {
+//@canary p256-kp-len-guard :: crypto::p256::KeyPair::from_bytes :: if bytes.len() != 32 { ==>> if false {
+//@canary proto-alg-swap :: crypto::PublicKey::from_proto :: if key.algorithm == schema::public_key::Algorithm::Ed25519 as i32 { ==>> if key.algorithm == schema::public_key::Algorithm::Secp256r1 as i32 {
 //@canary-requires crypto::ed25519::KeyPair::private
 //@canary-requires crypto::KeyPair::private
